@@ -13,6 +13,12 @@
    (`complete_trace`) and replayed by the compiled model (lean/Driver/C05.lean): every event
    must be an enabled transition of Pipeline with the same payload.
 
+Regression probes with stable keys (both defects were found by this check and are fixed in /repo,
+KNOWN_FINDINGS.txt `fixed:` f1844ef, 2856666; verified to fire again on a copy with the fix reverted):
+`o5m-entity-mask-wrong-objects` (o5m files WITHOUT a Reset between the type sections under every
+entity mask: wrong ids/strings or "reference to non-existing string"), `single-buffer-mixed-types:opl`
+(OPL file with ways directly followed by changesets, buffers_type::single).
+
 This module also holds what C07 (tools/props/c07.py) shares: harness build, process runner,
 block parser, file generation, the o5m encoder, trace completion.
 """
@@ -745,7 +751,7 @@ class Cannot(Exception):
     pass
 
 
-def complete_trace(b, f, assume_exc=False):
+def complete_trace(b, f, exc_mode='auto'):
     """Returns (lines, None) or (None, reason-not-validated)."""
     kv, ev = b.kv, b.events
     fmt = kv.get('fmt')
@@ -884,8 +890,12 @@ def complete_trace(b, f, assume_exc=False):
     r_threw = any(ev[i][1] in ('d-read-throw', 'd-close-throw') for i in by_thread.get(1, []))
     # an exception of the real parser that no hook marks (e.g. the input looks truncated because the read thread was
     # stopped early) is a hypothesis of the caller: validated by the model like everything else
-    own_exc = assume_exc and not (p_threw or r_threw)
-    has_exc = p_threw or r_threw or assume_exc
+    # exc_mode: 'auto' = the parser ended with an exception iff a hook marked one (decompressor / mock parser);
+    # 'none' = it ended normally although the read thread failed (it stopped before it got there: a PBF parser
+    # stops when the osmdata queue is shut down); 'own' = it raised an exception of its own that no hook marks
+    marked = p_threw or r_threw
+    own_exc = exc_mode == 'own' and not marked
+    has_exc = {'auto': marked, 'none': False, 'own': True}[exc_mode]
     npush = len(p_pushes)
     if npush < (2 if has_exc else 1):
         return None, 'parser-pushes-missing'
@@ -1294,16 +1304,16 @@ def validate_traces(ctx, blocks, files, report):
             continue
         cands = []
         why = None
-        for assume in (False, True):
+        for mode in ('auto', 'none', 'own'):
             try:
-                lines, why = complete_trace(b, f, assume_exc=assume)
+                lines, why = complete_trace(b, f, exc_mode=mode)
             except Cannot as e:
                 lines, why = None, 'cannot-complete'
-                if not assume:
+                if mode == 'auto':
                     ctx.count('trace-not-completed:%s' % str(e)[:60])
             except (StopIteration, IndexError):
                 lines, why = None, 'cannot-complete'
-            if lines is not None:
+            if lines is not None and lines not in cands:
                 cands.append(lines)
             if why not in (None, 'cannot-complete', 'parser-pushes-missing'):
                 break
@@ -1330,7 +1340,7 @@ def validate_traces(ctx, blocks, files, report):
         lines = cands[acc[0]] if acc else cands[0]
         res = rs[acc[0]] if acc else rs[0]
         if acc and acc[0] > 0:
-            ctx.count('trace:accepted-with-parser-exception-hypothesis')
+            ctx.count('trace:accepted-with-alternative-parser-ending')
         nev += len(b.events)
         if res.startswith('accept'):
             ctx.count('trace:accepted')
